@@ -53,6 +53,9 @@ MCClear == Step /\ \E t \in Tabs : Clear(t, AllK(t), AllV(t))
 MCCleanUp == Step /\ \E t \in Tabs : CleanUp(t, AllK(t), AllV(t))
 MCSwap == Step /\ Swap(1, 2)
 MCMove == Step /\ \E a, b \in Tabs : Move(a, b)
+MCEq == Step /\ \E a, b \in Tabs, kind \in {"id", "m3", "all"} : live[a] /\ live[b] /\
+            /\ Assert(EqLaws(a, b, kind), "aws_hash_table_eq as specified is not an equivalence on tables")
+            /\ Eq(a, b, kind, MapsEqual(a, b, kind), <<>>)
 MCIterBegin == Step /\ \E t \in Tabs : live[t] /\
                  IF Present(t) = {} THEN IterBegin(t, TRUE, -1, -1)
                  ELSE \E c \in Present(t) : IterBegin(t, FALSE, KeyOf(t, c), m[t][c].v)
@@ -69,7 +72,7 @@ MCForEach == Step /\ \E t \in Tabs : live[t] /\ \E vis \in VisFrom(t, Present(t)
                  ForEach(t, vis, ~(Len(vis) > 0 /\ FErr(vis[Len(vis)].f)), EmptyBag, EmptyBag)
 
 MCNext == MCInitT \/ MCPut \/ MCCreate \/ MCCreateFound \/ MCFind \/ MCRemove \/ MCRemoveElement \/ MCClear
-          \/ MCCleanUp \/ MCSwap \/ MCMove \/ MCIterBegin \/ MCIterNext \/ MCIterDelete \/ MCForEach
+          \/ MCCleanUp \/ MCSwap \/ MCMove \/ MCEq \/ MCIterBegin \/ MCIterNext \/ MCIterDelete \/ MCForEach
 MCSpec == MCInit /\ [][MCNext]_mcvars
 
 =============================================================================
